@@ -143,7 +143,13 @@ class NP:
         if "payload" in o.fields:
             return deep_copy(o.fields["payload"])
         d, t = self.of(o)
-        return Obj("pyvalues", OrderedDict(term=Const(("tolist", d, t)), of=Const(d)))
+        return self.pyvalues(("tolist", d, t), d)
+
+    def pyvalues(self, term, d):
+        v = Obj("pyvalues", OrderedDict(term=Const(term), of=Const(d)))
+        # sorted(values) / reversed(values): the same numbers in another order
+        v.fields["__sorted__"] = Fn("py", impl=lambda I, a, kw, term=term, d=d: self.pyvalues(("reordered", a[0].v, term), d), name="__sorted__")
+        return v
 
     def getitem(self, o, k):
         d, t = self.of(o)
@@ -645,6 +651,8 @@ def lossy_reason(term):
                 r = lossy_reason(("astype", to, d, inner[2]))
                 if r:
                     return "the stored list is read back as " + to + ": " + r
+    if op == "reordered":
+        return f"the stored values are passed through {term[1]}(): they come back in another order than the lines they belong to"
     if op == "parse":
         to, inner = term[1], term[2]
         if isinstance(inner, tuple) and inner[0] == "str" and np_kind(to) == "M" and np_kind(inner[2]) == "M" and np_units(to) != np_units(inner[2]) and _finer(np_units(to), np_units(inner[2])) == np_units(inner[2]):
